@@ -15,6 +15,7 @@ import Proofs.StepToks
 import Proofs.Respects
 import Proofs.Structure
 import Proofs.RangeOps
+import Proofs.ReplaceRange
 namespace PM.C18
 open PM
 
@@ -391,5 +392,166 @@ example :
     deleteRangeTarget S doc 2 4 = some (1, 5) ∧
     (doc.resolve 2).map (fun r => (r.depth, r.start 1, r.end_ 1, S.isolating (r.node 1))) = some (2, 1, 5, true) ∧
     (doc.resolve 4).map (fun r => (r.depth, r.start 1, r.end_ 1)) = some (2, 1, 5) := by decide
+
+/-! ## `replace_range` / `replace_range_with` (model PM/ReplaceRange.lean, tied exactly) -/
+
+/-- **`replace_range` never hands `replace` a range beyond an isolating node that contains both
+    ends**: if the depth-`k` ancestor of `from` (or of `to`) is isolating and it is the same node for
+    both positions (same content start), every request `(f', t', slice')` that `replace_range` makes
+    — the targeted call, every call of the fallback loop, the `delete_range` path for an empty
+    slice, the direct step — has `[f', t']` containing `[f, t]` and lying within that node's content
+    window `[start(k), end(k)]`.  (The covered depths stop below the isolating ancestor —
+    `coveredDepths_below_isolating` —, and the walk that adds the `-d` targets `break`s at the
+    first defining / definingAsContext / isolating ancestor.) -/
+theorem replaceRange_inside_isolating (S : Schema) (doc : Node) (f t : Nat) (sl : Slice)
+    (cs : List (Nat × Nat × Slice)) (rf rt : RPos)
+    (hf : doc.resolve f = some rf) (ht : doc.resolve t = some rt)
+    (h : replaceRangeCalls S doc f t sl = some cs)
+    (k : Nat) (hkf : k ≤ rf.depth) (hkt : k ≤ rt.depth)
+    (hiso : S.isolating (rf.node k) = true ∨ S.isolating (rt.node k) = true)
+    (hsame : rf.start k = rt.start k) :
+    ∀ c ∈ cs, rf.start k ≤ c.1 ∧ c.1 ≤ f ∧ t ≤ c.2.1 ∧ c.2.1 ≤ rf.end_ k := by
+  have Rf := resolve_resolved hf
+  have Rt := resolve_resolved ht
+  obtain ⟨plan, hp, rfl⟩ := Option.map_eq_some_iff.mp h
+  unfold replaceRangePlan at hp
+  split at hp
+  · split at hp
+    · simp at hp
+    · rename_i a b htg
+      simp only [Option.some.injEq] at hp
+      subst hp
+      intro c hc
+      simp only [RRPlan.toCalls, List.mem_singleton] at hc
+      subst hc
+      exact (deleteRange_inside_isolating S doc f t a b rf rt hf ht htg k hkf hkt hiso hsame).2.2
+  · simp only [hf, ht] at hp
+    split at hp
+    · simp at hp
+    · simp only [Option.some.injEq] at hp
+      subst hp
+      intro c hc
+      simp only [RRPlan.toCalls, List.mem_singleton] at hc
+      subst hc
+      exact Widened.inside_isolating S hf ht (.inl ⟨rfl, rfl⟩) k hkf hkt hiso hsame
+    · intro c hc
+      exact Widened.inside_isolating S hf ht (replaceRangeR_calls S Rf Rt sl plan hp c hc).1 k hkf hkt hiso hsame
+
+/-- … with the node's own positions: for an isolating node (not the root) occupying `[a, b)` —
+    `a = start(k) − 1` its open token, `b − 1 = end(k)` its close token — every request has
+    `a < f'` and `t' < b`, so a replace step on exactly the requested range satisfies the monitor
+    `insideNode a b` and `inside_preserves_outside` applies to it -/
+theorem replaceRange_insideNode (S : Schema) (doc : Node) (f t : Nat) (sl : Slice)
+    (cs : List (Nat × Nat × Slice)) (rf rt : RPos)
+    (hf : doc.resolve f = some rf) (ht : doc.resolve t = some rt) (hft : f ≤ t)
+    (h : replaceRangeCalls S doc f t sl = some cs)
+    (k : Nat) (hk1 : 1 ≤ k) (hkf : k ≤ rf.depth) (hkt : k ≤ rt.depth)
+    (hiso : S.isolating (rf.node k) = true ∨ S.isolating (rt.node k) = true)
+    (hsame : rf.start k = rt.start k) (c : Nat × Nat × Slice) (hc : c ∈ cs) (sl' : Slice) (s : Bool) :
+    rf.start k - 1 < c.1 ∧ c.2.1 < rf.end_ k + 1 ∧
+    insideNode (rf.start k - 1) (rf.end_ k + 1) (.replace c.1 c.2.1 sl' s) = true := by
+  obtain ⟨h1, h2, h3, h4⟩ := replaceRange_inside_isolating S doc f t sl cs rf rt hf ht h k hkf hkt hiso hsame c hc
+  have hs : 1 ≤ rf.start k := by
+    obtain ⟨j, rfl⟩ : ∃ j, k = j + 1 := ⟨k - 1, by omega⟩
+    rw [Resolved.start_succ]; omega
+  refine ⟨by omega, by omega, ?_⟩
+  simp only [insideNode, Bool.and_eq_true, decide_eq_true_eq]
+  omega
+
+/-- **the target of `replace_range_with`**: the pair `(f', t')` it passes on to `replace_range`
+    (with the slice `Slice(Fragment.from_(node), 0, 0)`) is the original pair, or — only for a
+    non-inline node at an empty range `f = t` inside a non-empty parent — the position
+    `insert_point(doc, f, node.type)` answered, as an empty range there.
+
+    Nothing in this function, and nothing in `insert_point` (PM/Structure2.lean), looks at
+    `isolating`: when the node fits nowhere inside an isolating node, `insert_point` walks up
+    through it and answers a position outside (open finding **C18-insert-point-outside**; the
+    `example` below is that case).  So the theorem that is true stops here: once the target is the
+    original pair, `replaceRange_inside_isolating` applies (`replaceRangeWith_inside_isolating`);
+    when it is the insertion point `p`, the requests are those of `replace_range(p, p, …)`
+    (`replaceRangeWith_calls`), which may lie outside the node — the correspondence run accepts
+    such a step only as a pure insertion (monitor `pureInsertOutside`, theorem
+    `pure_insert_keeps_all`) and reports it under the finding. -/
+theorem replaceRangeWith_target (S : Schema) (doc : Node) (f t : Nat) (node : Node) (a b : Nat)
+    (h : replaceRangeWithTarget S doc f t node = some (a, b)) :
+    (a = f ∧ b = t) ∨
+    (f = t ∧ a = b ∧ (S.nodeType (S.tyOf node)).isInline = false ∧
+      insertPoint S doc f (S.tyOf node) = some (some a) ∧
+      ∃ r, doc.resolve f = some r ∧ fsize r.parent.kids ≠ 0) := by
+  unfold replaceRangeWithTarget at h
+  split at h
+  · rename_i hc
+    simp only [Bool.and_eq_true, Bool.not_eq_true', beq_iff_eq] at hc
+    split at h
+    · simp at h
+    · rename_i r hr
+      split at h
+      · rename_i hsz
+        split at h
+        · simp at h
+        · rename_i p hp
+          simp only [Option.some.injEq, Prod.mk.injEq] at h
+          obtain ⟨rfl, rfl⟩ := h
+          exact .inr ⟨hc.2, rfl, hc.1, by simp [insertPoint, hr, hp], r, hr, by simpa using hsz⟩
+        · simp only [Option.some.injEq, Prod.mk.injEq] at h
+          exact .inl ⟨h.1.symm, h.2.symm⟩
+      · simp only [Option.some.injEq, Prod.mk.injEq] at h
+        exact .inl ⟨h.1.symm, h.2.symm⟩
+  · simp only [Option.some.injEq, Prod.mk.injEq] at h
+    exact .inl ⟨h.1.symm, h.2.symm⟩
+
+/-- `replace_range_with(f, t, node)` is `replace_range` at that target with the closed one-node slice -/
+theorem replaceRangeWith_calls (S : Schema) (doc : Node) (f t : Nat) (node : Node)
+    (cs : List (Nat × Nat × Slice)) (h : replaceRangeWithCalls S doc f t node = some cs) :
+    ∃ a b, replaceRangeWithTarget S doc f t node = some (a, b) ∧
+      replaceRangeCalls S doc a b ⟨[node], 0, 0⟩ = some cs := by
+  unfold replaceRangeWithCalls replaceRangeWithPlan at h
+  split at h
+  · simp at h
+  · rename_i a b htg
+    exact ⟨a, b, htg, h⟩
+
+/-- **inside an isolating node, as long as `insert_point` does not move the target**: every request
+    of `replace_range_with(f, t, node)` whose target is the original pair stays within the content
+    of an isolating node containing both ends -/
+theorem replaceRangeWith_inside_isolating (S : Schema) (doc : Node) (f t : Nat) (node : Node)
+    (cs : List (Nat × Nat × Slice)) (rf rt : RPos)
+    (hf : doc.resolve f = some rf) (ht : doc.resolve t = some rt)
+    (h : replaceRangeWithCalls S doc f t node = some cs)
+    (hsame_target : replaceRangeWithTarget S doc f t node = some (f, t))
+    (k : Nat) (hkf : k ≤ rf.depth) (hkt : k ≤ rt.depth)
+    (hiso : S.isolating (rf.node k) = true ∨ S.isolating (rt.node k) = true)
+    (hsame : rf.start k = rt.start k) :
+    ∀ c ∈ cs, rf.start k ≤ c.1 ∧ c.1 ≤ f ∧ t ≤ c.2.1 ∧ c.2.1 ≤ rf.end_ k := by
+  obtain ⟨a, b, htg, hcs⟩ := replaceRangeWith_calls S doc f t node cs h
+  rw [hsame_target] at htg
+  simp only [Option.some.injEq, Prod.mk.injEq] at htg
+  obtain ⟨rfl, rfl⟩ := htg
+  exact replaceRange_inside_isolating S doc f t _ cs rf rt hf ht hcs k hkf hkt hiso hsame
+
+/-- the hypotheses are satisfiable, and the open finding C18-insert-point-outside in the model: in
+    `doc(table(row(cell(p("a")))))` (`table`, `cell` isolating; the cell's content window is `[3, 6]`),
+    * `replace_range(4, 5, <p("x")>(1,1))` inside the cell stays inside it;
+    * `replace_range_with(3, 3, row(cell(p("Q"))))` — a row fits nowhere inside a cell — is handed on
+      to `replace_range` at `(1, 1)`, the position in front of the existing row, *outside* the cell:
+      `insert_point` walked up through the isolating cell. -/
+example :
+    let nt (name : String) (isText inl iso : Bool) (dfa : Array DfaState) : NodeType :=
+      { name := name, isText := isText, isInline := isText, isLeaf := isText, isAtom := isText,
+        inlineContent := inl, isolating := iso, defining := false, code := false,
+        dfa := dfa, markSet := none, attrs := [] }
+    let one (t : Nat) : Array DfaState := #[⟨false, [(t, 1)]⟩, ⟨true, [(t, 1)]⟩]
+    let S : Schema := { nodes := #[nt "doc" false false false (one 1), nt "table" false false true (one 2),
+                                   nt "row" false false false (one 3), nt "cell" false false true (one 4),
+                                   nt "p" false true false #[⟨true, [(5, 0)]⟩],
+                                   nt "text" true false false #[⟨true, []⟩]],
+                        marks := #[], top := 0, textTy := 5 }
+    let p (s : List Nat) : Node := .elem 4 [] [] [.text s []]
+    let doc := Node.elem 0 [] [] [.elem 1 [] [] [.elem 2 [] [] [.elem 3 [] [] [p [97]]]]]
+    let row := Node.elem 2 [] [] [.elem 3 [] [] [p [81]]]
+    (doc.resolve 3).map (fun r => (r.depth, r.start 3, r.end_ 3, S.isolating (r.node 3))) = some (3, 3, 6, true) ∧
+    replaceRangeCalls S doc 4 5 ⟨[p [120]], 1, 1⟩ = some [(4, 5, ⟨[p [120]], 1, 1⟩)] ∧
+    replaceRangeWithTarget S doc 3 3 row = some (1, 1) ∧
+    replaceRangeWithCalls S doc 3 3 row = some [(1, 1, ⟨[row], 0, 0⟩)] := by decide
 
 end PM.C18
